@@ -8,12 +8,12 @@
 
   Along the simultaneous recursion of the serialiser's check `wr` on the tree before and on the tree
   after the pass (`dpWalk`), the two top frames `W` (before) and `W'` (after) are related by
-    `DInv x W W'`  : every binding `(p, N)` of `W` is in `W'`, or `W'` has a binding `(q, N)` of a
+    `DdInv x W W'`  : every binding `(p, N)` of `W` is in `W'`, or `W'` has a binding `(q, N)` of a
                      prefix `q` that the subtree of `x` never binds to anything else (non-empty if an
                      attribute below is in `N`);
-    `DInv3 W W'`   : a default namespace in `W'` means one in `W`;
+    `DdInv3 W W'`   : a default namespace in `W'` means one in `W`;
     `KW K W'`      : the nearest binding of every prefix in the kept stack is in `W'`.
-  These are preserved by `push` on an element with unique prefixes (`DInv.push`, …) and give every
+  These are preserved by `push` on an element with unique prefixes (`DdInv.push`, …) and give every
   name check of the element (`elementOk_keep`).  `keep_wr`: `wr W x → wr W' (dpWalk K x)`.
 -/
 import XotModel.Lemmas.DedupUnique
@@ -33,7 +33,7 @@ theorem lookup_isSome_iff_mem_keys (d : List (Nat × Nat)) (p : Nat) :
     obtain ⟨kv, hkv, rfl⟩ := List.mem_map.1 h
     exact ⟨kv, hkv, by simp⟩
 
-theorem mem_of_lookup_eq_some {d : List (Nat × Nat)} {p n : Nat} (h : d.lookup p = some n) :
+theorem ddMem_of_lookup_eq_some {d : List (Nat × Nat)} {p n : Nat} (h : d.lookup p = some n) :
     (p, n) ∈ d := by
   induction d with
   | nil => simp at h
@@ -49,7 +49,7 @@ theorem mem_of_lookup_eq_some {d : List (Nat × Nat)} {p n : Nat} (h : d.lookup 
       rw [hb] at h
       exact List.mem_cons_of_mem _ (ih h)
 
-theorem mem_pushTop (W d : List (Nat × Nat)) (p n : Nat) :
+theorem ddMem_pushTop (W d : List (Nat × Nat)) (p n : Nat) :
     (p, n) ∈ pushTop W d ↔ (p, n) ∈ d ∨ (p ∉ d.map Prod.fst ∧ (p, n) ∈ W) := by
   unfold pushTop
   cases d with
@@ -255,24 +255,24 @@ def KW (K : List (List (Nat × Nat))) (W' : List (Nat × Nat)) : Prop :=
 
 /-- Every binding of `W` is in `W'` or is made up for by a binding of the same namespace that the
     subtree of `x` can use. -/
-def DInv (env : Env) (x : Tree) (W W' : List (Nat × Nat)) : Prop :=
+def DdInv (env : Env) (x : Tree) (W W' : List (Nat × Nat)) : Prop :=
   ∀ p N, (p, N) ∈ W → (p, N) ∈ W' ∨ ∃ q, (q, N) ∈ W' ∧ isPrefixRebound q N x = false ∧
     ¬ (q = Env.emptyPrefix ∧ hasAttributeInNamespace env N x = true)
 
 /-- A default namespace after means a default namespace before. -/
-def DInv3 (W W' : List (Nat × Nat)) : Prop :=
+def DdInv3 (W W' : List (Nat × Nat)) : Prop :=
   ∀ n, (Env.emptyPrefix, n) ∈ W' → n ≠ Env.noNamespace →
     ∃ m, m ≠ Env.noNamespace ∧ (Env.emptyPrefix, m) ∈ W
 
 theorem KW.nil (W' : List (Nat × Nat)) : KW [] W' := fun _ _ h => by simp [scopeOf] at h
 
-theorem DInv.refl (env : Env) (x : Tree) (W : List (Nat × Nat)) : DInv env x W W :=
+theorem DdInv.refl (env : Env) (x : Tree) (W : List (Nat × Nat)) : DdInv env x W W :=
   fun _ _ h => .inl h
 
-theorem DInv3.refl (W : List (Nat × Nat)) : DInv3 W W := fun n h hn => ⟨n, hn, h⟩
+theorem DdInv3.refl (W : List (Nat × Nat)) : DdInv3 W W := fun n h hn => ⟨n, hn, h⟩
 
-theorem DInv.kid {env : Env} {v : Value} {ks : List Tree} {W W' : List (Nat × Nat)}
-    (h : DInv env (.node v ks) W W') {k : Tree} (hk : k ∈ ks) : DInv env k W W' := by
+theorem DdInv.kid {env : Env} {v : Value} {ks : List Tree} {W W' : List (Nat × Nat)}
+    (h : DdInv env (.node v ks) W W') {k : Tree} (hk : k ∈ ks) : DdInv env k W W' := by
   intro p N hp
   rcases h p N hp with h1 | ⟨q, hq, hr, ha⟩
   · exact .inl h1
@@ -282,13 +282,13 @@ theorem DInv.kid {env : Env} {v : Value} {ks : List Tree} {W W' : List (Nat × N
 theorem KW.push {K : List (List (Nat × Nat))} {W' : List (Nat × Nat)} (h : KW K W')
     (d' : List (Nat × Nat)) : KW (d' :: K) (pushTop W' d') := by
   intro q n hq
-  rw [mem_pushTop]
+  rw [ddMem_pushTop]
   simp only [scopeOf] at hq
   cases hl : d'.lookup q with
   | some m =>
     simp only [hl, Option.some.injEq] at hq
     subst hq
-    exact .inl (mem_of_lookup_eq_some hl)
+    exact .inl (ddMem_of_lookup_eq_some hl)
   | none =>
     simp only [hl] at hq
     refine .inr ⟨fun hm => ?_, h q n hq⟩
@@ -306,7 +306,7 @@ theorem not_mem_keys_dpKeep {env : Env} {K : List (List (Nat × Nat))} {x : Tree
 theorem witness_push {env : Env} {x : Tree} {K : List (List (Nat × Nat))} {W' : List (Nat × Nat)}
     {q N : Nat} (hn : x.value.isNormal = true) (hq : (q, N) ∈ W')
     (hr : isPrefixRebound q N x = false) : (q, N) ∈ pushTop W' (dpKeep env K x) := by
-  rw [mem_pushTop]
+  rw [ddMem_pushTop]
   by_cases hk : q ∈ (dpKeep env K x).map Prod.fst
   · obtain ⟨⟨q', n'⟩, hkv, rfl⟩ := List.mem_map.1 hk
     have hm : (q', n') ∈ x.nsDecls := (dpKeep_sublist env K x).subset hkv
@@ -315,11 +315,11 @@ theorem witness_push {env : Env} {x : Tree} {K : List (List (Nat × Nat))} {W' :
     exact .inl hkv
   · exact .inr ⟨hk, hq⟩
 
-theorem DInv.push {env : Env} {x : Tree} {K : List (List (Nat × Nat))} {W W' : List (Nat × Nat)}
+theorem DdInv.push {env : Env} {x : Tree} {K : List (List (Nat × Nat))} {W W' : List (Nat × Nat)}
     (hn : x.value.isNormal = true) (hnd : (x.nsDecls.map Prod.fst).Nodup) (hK : KW K W')
-    (h : DInv env x W W') : DInv env x (pushTop W x.nsDecls) (pushTop W' (dpKeep env K x)) := by
+    (h : DdInv env x W W') : DdInv env x (pushTop W x.nsDecls) (pushTop W' (dpKeep env K x)) := by
   intro p N hp
-  rw [mem_pushTop] at hp
+  rw [ddMem_pushTop] at hp
   rcases hp with hp | ⟨hpk, hp⟩
   · -- declared on `x` itself
     by_cases hred : isRedundantDeclaration env x K (p, N) = true
@@ -327,27 +327,27 @@ theorem DInv.push {env : Env} {x : Tree} {K : List (List (Nat × Nat))} {W W' : 
       have hqW := hK q N hq
       rcases hw with rfl | ⟨hr, ha⟩
       · -- the same prefix is bound to `N` above: it still is
-        refine .inl ((mem_pushTop _ _ _ _).2 (.inr ⟨fun hm => ?_, hqW⟩))
+        refine .inl ((ddMem_pushTop _ _ _ _).2 (.inr ⟨fun hm => ?_, hqW⟩))
         obtain ⟨⟨q', n'⟩, hkv, rfl⟩ := List.mem_map.1 hm
         have hm' : (q', n') ∈ x.nsDecls := (dpKeep_sublist env K x).subset hkv
         have := eq_of_mem_of_key_eq hnd hm' hp rfl
         rw [this] at hkv
         simp only [dpKeep, List.mem_filter, hred, Bool.not_true, Bool.false_eq_true, and_false] at hkv
       · exact .inr ⟨q, witness_push hn hqW hr, hr, ha⟩
-    · refine .inl ((mem_pushTop _ _ _ _).2 (.inl ?_))
+    · refine .inl ((ddMem_pushTop _ _ _ _).2 (.inl ?_))
       simp only [dpKeep, List.mem_filter]
       exact ⟨hp, by simpa using hred⟩
   · -- inherited
     rcases h p N hp with h1 | ⟨q, hq, hr, ha⟩
-    · exact .inl ((mem_pushTop _ _ _ _).2 (.inr ⟨not_mem_keys_dpKeep hpk, h1⟩))
+    · exact .inl ((ddMem_pushTop _ _ _ _).2 (.inr ⟨not_mem_keys_dpKeep hpk, h1⟩))
     · exact .inr ⟨q, witness_push hn hq hr, hr, ha⟩
 
-theorem DInv3.push {env : Env} {x : Tree} {K : List (List (Nat × Nat))} {W W' : List (Nat × Nat)}
-    (h : DInv3 W W') : DInv3 (pushTop W x.nsDecls) (pushTop W' (dpKeep env K x)) := by
+theorem DdInv3.push {env : Env} {x : Tree} {K : List (List (Nat × Nat))} {W W' : List (Nat × Nat)}
+    (h : DdInv3 W W') : DdInv3 (pushTop W x.nsDecls) (pushTop W' (dpKeep env K x)) := by
   intro n hn hn0
-  rw [mem_pushTop] at hn
+  rw [ddMem_pushTop] at hn
   rcases hn with hn | ⟨hk, hn⟩
-  · exact ⟨n, hn0, (mem_pushTop _ _ _ _).2 (.inl ((dpKeep_sublist env K x).subset hn))⟩
+  · exact ⟨n, hn0, (ddMem_pushTop _ _ _ _).2 (.inl ((dpKeep_sublist env K x).subset hn))⟩
   · obtain ⟨m, hm0, hm⟩ := h n hn hn0
     by_cases hd : Env.emptyPrefix ∈ x.nsDecls.map Prod.fst
     · -- the element declares the empty prefix but does not keep the declaration: it was removed,
@@ -355,15 +355,15 @@ theorem DInv3.push {env : Env} {x : Tree} {K : List (List (Nat × Nat))} {W W' :
       obtain ⟨⟨e, m'⟩, hkv, he⟩ := List.mem_map.1 hd
       simp only at he
       subst he
-      refine ⟨m', fun h0 => hk ?_, (mem_pushTop _ _ _ _).2 (.inl hkv)⟩
+      refine ⟨m', fun h0 => hk ?_, (ddMem_pushTop _ _ _ _).2 (.inl hkv)⟩
       refine List.mem_map.2 ⟨(Env.emptyPrefix, m'), ?_, rfl⟩
       simp only [dpKeep, List.mem_filter]
       exact ⟨hkv, by rw [isRedundantDeclaration_undecl env x K _ h0]; rfl⟩
-    · exact ⟨m, hm0, (mem_pushTop _ _ _ _).2 (.inr ⟨hd, hm⟩)⟩
+    · exact ⟨m, hm0, (ddMem_pushTop _ _ _ _).2 (.inr ⟨hd, hm⟩)⟩
 
 /-! ### The name checks of one element -/
 
-theorem hasDefaultNamespace_iff (top : List (Nat × Nat)) :
+theorem ddHasDefaultNamespace_iff (top : List (Nat × Nat)) :
     FStack.hasDefaultNamespace [top] = true ↔
       ∃ n, n ≠ Env.noNamespace ∧ (Env.emptyPrefix, n) ∈ top := by
   simp only [FStack.hasDefaultNamespace, FStack.top, List.headD_cons, List.any_eq_true,
@@ -377,8 +377,8 @@ theorem hasDefaultNamespace_iff (top : List (Nat × Nat)) :
     exact ⟨(Env.emptyPrefix, n), hm, rfl, hn⟩
 
 theorem elementOk_keep (env : Env) (x x' : Tree) (name : Nat) (W W' : List (Nat × Nat))
-    (hattrs : x'.attrs = x.attrs) (hn : x.value.isNormal = true) (hI : DInv env x W W')
-    (h3 : DInv3 W W') (h : elementOk env W x name = true) : elementOk env W' x' name = true := by
+    (hattrs : x'.attrs = x.attrs) (hn : x.value.isNormal = true) (hI : DdInv env x W W')
+    (h3 : DdInv3 W W') (h : elementOk env W x name = true) : elementOk env W' x' name = true := by
   simp only [elementOk, Bool.and_eq_true, Bool.not_eq_true', Bool.and_eq_false_iff,
     elementFullname_ok, attributeFullname_ok, List.all_eq_true, Bool.or_eq_true, beq_iff_eq,
     beq_eq_false_iff_ne, ne_eq, hattrs] at h ⊢
@@ -390,9 +390,9 @@ theorem elementOk_keep (env : Env) (x x' : Tree) (name : Nat) (W W' : List (Nat 
       cases hd' : FStack.hasDefaultNamespace [W'] with
       | false => rfl
       | true =>
-        obtain ⟨n, hn0, hm⟩ := (hasDefaultNamespace_iff W').1 hd'
+        obtain ⟨n, hn0, hm⟩ := (ddHasDefaultNamespace_iff W').1 hd'
         obtain ⟨m, hm0, hmm⟩ := h3 n hm hn0
-        have := (hasDefaultNamespace_iff W).2 ⟨m, hm0, hmm⟩
+        have := (ddHasDefaultNamespace_iff W).2 ⟨m, hm0, hmm⟩
         rw [hd] at this; cases this
   · rcases he with he | he
     · exact .inl he
@@ -501,7 +501,7 @@ theorem dpWalk_element (env : Env) (K : List (List (Nat × Nat))) (name : Nat) (
     AFTER the push give the element's own name checks and (through `hkids`) its children. -/
 theorem keep_body (env : Env) (name : Nat) (ks : List Tree) (K : List (List (Nat × Nat)))
     (W₁ W₁' : List (Nat × Nat))
-    (hI : DInv env (.node (.element name) ks) W₁ W₁') (h3 : DInv3 W₁ W₁')
+    (hI : DdInv env (.node (.element name) ks) W₁ W₁') (h3 : DdInv3 W₁ W₁')
     (hkids : wr.wrList env W₁ ks = true →
       wr.wrList env W₁' (dpWalk.dpWalkList env (dpKeep env K (.node (.element name) ks) :: K) ks) = true)
     (he : elementOk env W₁ (.node (.element name) ks) name = true)
@@ -516,7 +516,7 @@ theorem keep_body (env : Env) (name : Nat) (ks : List Tree) (K : List (List (Nat
 
 mutual
 theorem keep_wr (env : Env) : ∀ (x : Tree) (K : List (List (Nat × Nat))) (W W' : List (Nat × Nat)),
-    UniqueDeclsBelow x → KW K W' → DInv env x W W' → DInv3 W W' →
+    UniqueDeclsBelow x → KW K W' → DdInv env x W W' → DdInv3 W W' →
     wr env W x = true → wr env W' (dpWalk env K x) = true
   | .node v ks, K, W, W', hu, hK, hI, h3, hw => by
     have hukids : ∀ (i : Nat) (k : Tree), ks[i]? = some k → UniqueDeclsBelow k :=
@@ -524,8 +524,8 @@ theorem keep_wr (env : Env) : ∀ (x : Tree) (K : List (List (Nat × Nat))) (W W
     by_cases he : v.isElement = true
     · obtain ⟨name, rfl⟩ := (isElement_iff_ex v).1 he
       have hnd := hu.self (t := .node (.element name) ks) rfl
-      have hI₁ := DInv.push (K := K) (x := .node (.element name) ks) rfl hnd hK hI
-      have h3₁ := DInv3.push (env := env) (x := .node (.element name) ks) (K := K) h3
+      have hI₁ := DdInv.push (K := K) (x := .node (.element name) ks) rfl hnd hK hI
+      have h3₁ := DdInv3.push (env := env) (x := .node (.element name) ks) (K := K) h3
       have hK₁ := hK.push (dpKeep env K (.node (.element name) ks))
       rw [wr_element, Bool.and_eq_true] at hw
       have hb := keep_body env name ks K _ _ hI₁ h3₁
@@ -543,7 +543,7 @@ theorem keep_wr (env : Env) : ∀ (x : Tree) (K : List (List (Nat × Nat))) (W W
 theorem keep_wr_list (env : Env) : ∀ (ks : List Tree) (K : List (List (Nat × Nat)))
     (W W' : List (Nat × Nat)),
     (∀ (i : Nat) (k : Tree), ks[i]? = some k → UniqueDeclsBelow k) → KW K W' →
-    (∀ k ∈ ks, DInv env k W W') → DInv3 W W' →
+    (∀ k ∈ ks, DdInv env k W W') → DdInv3 W W' →
     wr.wrList env W ks = true → wr.wrList env W' (dpWalk.dpWalkList env K ks) = true
   | [], _, _, _, _, _, _, _, _ => by simp [dpWalk.dpWalkList, wr.wrList]
   | k :: ks, K, W, W', hu, hK, hI, h3, hw => by
@@ -557,6 +557,6 @@ end
 /-- A pass started at `x` (empty kept stack), seen from ANY serialiser frame `W`. -/
 theorem keep_from_empty (env : Env) (x : Tree) (W : List (Nat × Nat)) (hu : UniqueDeclsBelow x)
     (hw : wr env W x = true) : wr env W (dpWalk env [] x) = true :=
-  keep_wr env x [] W W hu (KW.nil W) (DInv.refl env x W) (DInv3.refl W) hw
+  keep_wr env x [] W W hu (KW.nil W) (DdInv.refl env x W) (DdInv3.refl W) hw
 
 end XotModel
